@@ -423,6 +423,39 @@ std::string ctxText(const Ctx &ctx)
     return t;
 }
 
+// kit/gen.cpp (genValidModel, "connections") makes a pair of variables compatible by giving the second variable the units
+// of the first without looking at the mappings the second variable already has: an earlier mapping can end up joining
+// different dimensions. Such mappings are removed here (removing a mapping keeps a model valid); see notes/C04.md.
+long dropUnsoundMappings(ModelSpec &m)
+{
+    long dropped = 0;
+    for (auto &cn : m.conns) {
+        const auto &A = m.comps[static_cast<size_t>(cn.c1)];
+        const auto &B = m.comps[static_cast<size_t>(cn.c2)];
+        if (A.import >= 0 || B.import >= 0) {
+            continue;
+        }
+        for (size_t i = 0; i < cn.maps.size();) {
+            const std::string &u1 = A.vars[static_cast<size_t>(cn.maps[i].v1)].units;
+            const std::string &u2 = B.vars[static_cast<size_t>(cn.maps[i].v2)].units;
+            if (u1 != u2 && !sameBase(reduceUnits(m, u1), reduceUnits(m, u2))) {
+                cn.maps.erase(cn.maps.begin() + static_cast<long>(i));
+                ++dropped;
+            } else {
+                ++i;
+            }
+        }
+    }
+    for (size_t i = 0; i < m.conns.size();) {
+        if (m.conns[i].maps.empty()) {
+            m.conns.erase(m.conns.begin() + static_cast<long>(i));
+        } else {
+            ++i;
+        }
+    }
+    return dropped;
+}
+
 // A defect of the validator that makes valid base models fail: the identifier of an import source that is shared by
 // several imported entities (one <import> element with several children) is counted once per entity.
 bool sharedImportSourceWithId(const ModelSpec &m)
@@ -2641,6 +2674,10 @@ void run(Src &src, Case &c)
     }
     Ctx ctx;
     ctx.base = genValidModel(src, opt);
+    if (long dropped = dropUnsoundMappings(ctx.base)) {
+        c.count("generator-unsound:mapping-between-different-dimensions-removed", dropped);
+        c.cls("base:repaired-generator-unsound-mapping");
+    }
     if (oddHref && !ctx.base.imports.empty()) {
         // legal by XLink 5.4 (characters outside the URI repertoire are escaped by the processor), unusual
         static const std::vector<std::string> odd = {"caf\xC3\xA9/lib.cellml", "my models/lib 1.cellml"};
